@@ -6,8 +6,19 @@ cd /repo || exit 2
 if ! git diff --quiet; then echo "/repo is dirty; refusing" >&2; exit 2; fi
 git apply "$PATCH" || { echo "patch does not apply" >&2; exit 2; }
 trap 'git -C /repo checkout -- . ' EXIT
+ID=$(basename $(dirname "$PATCH"))
 for P in "$@"; do
   OUT=$(cd /verif && ./check $P quick 2>&1); rc=$?
+  if [ -f /verif/seeded/$ID/meta.json ]; then
+    RES=MISSED; [ $rc -eq 1 ] && RES=CAUGHT; [ $rc -ge 2 ] && RES=TROUBLE
+    python3 - "$ID" "$P" "$RES" "$(echo "$OUT" | grep -m1 '^violation' | cut -c1-400)" <<'PY'
+import json,sys
+id_,p,res,line=sys.argv[1:5]
+f=f"/verif/seeded/{id_}/meta.json"; m=json.load(open(f))
+m.setdefault("checks",{})[p]={"quick":res,"first_violation":line,"ran":f"git -C /repo apply patch.diff; ./check {p} quick; git -C /repo checkout -- ."}
+json.dump(m,open(f,"w"),indent=1)
+PY
+  fi
   if [ $rc -eq 1 ] && echo "$OUT" | grep -q "^VIOLATION property=$P"; then
     echo "$P CAUGHT: $(echo "$OUT" | grep -m1 '^violation' | cut -c1-300)"
   elif [ $rc -eq 0 ]; then echo "$P MISSED ($(echo "$OUT" | tail -1 | cut -c1-200))"
